@@ -305,7 +305,7 @@ def finish(prop, tier, seed, merged, wall, inconclusive_reasons, workers):
     print(f"[{prop}] tier={tier} seed={seed} evaluations={merged['evaluations']} distinct_nontrivial={len(merged['distinct'])} wall={wall:.1f}s")
     for mech, n in sorted(merged["known_hits"].items()):
         e = known.get(mech, {})
-        print(f"KNOWN-FINDING: property={prop} {mech}: {e.get('description', '')} ({n} witnesses this run)")
+        print(f"KNOWN-FINDING: property={prop} {mech} [{e.get('summary') or e.get('description', '')[:140]}] ({n} witnesses this run)")
     if nviol:
         for mech, path in replay_paths:
             print(f"VIOLATION property={prop} replay={path}  # {mech} x{merged['violation_keys'][mech]}")
